@@ -12,7 +12,7 @@ from ..cfg import cfg_of
 from ..model import own_nodes
 from ..values import pattern, match, match_any, find, contains, show, subterms
 from ..domains import polarity, POS, NEG, ZERO
-from .base import obligation, src, callee_name
+from .base import obligation, src, callee_name, if_branches, split_if
 from .C04 import pattern_term, returns, enclosing_loop, _inside
 
 SMC = 'elfi.methods.inference.samplers:SMC'
@@ -75,10 +75,14 @@ def c07_a(ctx):
         if ones:
             m = match(ones[0], pattern('np.ones(_n)'))
             sel = [n for n in own_nodes(f.node) if isinstance(n, ast.If) and
-                   match(ex.term(n.test), pattern('self._populations')) is not None]
-            ok = bool(sel) and any(isinstance(s, ast.Assign) and
-                                   match(ex.term(s.value), pattern('np.ones(_n)')) is not None
-                                   for s in sel[0].orelse)
+                   if_branches(ex, n, ('self._populations', 'len(self._populations) != 0',
+                                       '0 < len(self._populations)')) is not None]
+            ok = bool(sel) and any(
+                isinstance(s, ast.Assign) and
+                match(ex.term(s.value), pattern('np.ones(_n)')) is not None
+                for s in if_branches(ex, sel[0], ('self._populations',
+                                                  'len(self._populations) != 0',
+                                                  '0 < len(self._populations)'))[1])
             ctx.check(ok, f, 'unit weights for the first population',
                       'ones when there is no previous population',
                       'unit weights are not selected exactly when no previous population exists',
